@@ -124,8 +124,19 @@ package crdt
 //@   ensures [star-means-trust-all] err == nil ==> (cfg.TrustAll <==> exists i int :: 0 <= i && i < len(jcfg.TrustedPeers) && jcfg.TrustedPeers[i] == "*")
 //@   ensures [list-taken-whole] err == nil && !cfg.TrustAll ==> len(cfg.TrustedPeers) == len(jcfg.TrustedPeers)
 //@   ensures [trust-all-has-no-list] err == nil && cfg.TrustAll ==> len(cfg.TrustedPeers) == 0
+// "no well-formed setting is silently dropped or replaced by its default": every setting the saved form carries is read
+// back into the field of the same name when the section is accepted
+//@   ensures [cluster-name] err == nil ==> cfg.ClusterName == ite(jcfg.ClusterName != "", jcfg.ClusterName, old(cfg.ClusterName))
+//@   ensures [peerset-metric] err == nil ==> cfg.PeersetMetric == ite(jcfg.PeersetMetric != "", jcfg.PeersetMetric, old(cfg.PeersetMetric))
+//@   ensures [datastore-namespace] err == nil ==> cfg.DatastoreNamespace == ite(jcfg.DatastoreNamespace != "", jcfg.DatastoreNamespace, old(cfg.DatastoreNamespace))
+//@   ensures [max-batch-size] err == nil ==> cfg.Batching.MaxBatchSize == jcfg.Batching.MaxBatchSize
+//@   ensures [max-queue-size] err == nil ==> cfg.Batching.MaxQueueSize == ite(jcfg.Batching.MaxQueueSize != 0, jcfg.Batching.MaxQueueSize, old(cfg.Batching.MaxQueueSize))
+//@   ensures [rebroadcast-interval] err == nil ==> cfg.RebroadcastInterval == ite(jcfg.RebroadcastInterval != "", parseDur(jcfg.RebroadcastInterval), old(cfg.RebroadcastInterval))
+//@   ensures [max-batch-age] err == nil ==> cfg.Batching.MaxBatchAge == ite(jcfg.Batching.MaxBatchAge != "", parseDur(jcfg.Batching.MaxBatchAge), old(cfg.Batching.MaxBatchAge))
 //@   loop 1 (range jcfg.TrustedPeers)
 //@     invariant !cfg.TrustAll && len(cfg.TrustedPeers) == idx1 && (forall i int :: 0 <= i && i < idx1 ==> jcfg.TrustedPeers[i] != "*")
+//@     invariant cfg.ClusterName == ite(jcfg.ClusterName != "", jcfg.ClusterName, old(cfg.ClusterName)) && cfg.PeersetMetric == old(cfg.PeersetMetric) && cfg.DatastoreNamespace == old(cfg.DatastoreNamespace) && cfg.Batching.MaxQueueSize == old(cfg.Batching.MaxQueueSize) && cfg.RebroadcastInterval == old(cfg.RebroadcastInterval) && cfg.Batching.MaxBatchAge == old(cfg.Batching.MaxBatchAge)
+//@     invariant forall q *jsonConfig :: *q == old(*q)
 //@   modifies heap(Config), heap(time.Duration), heap(int), heap(string), heap(uint64), heap(bool), heap(float64)
 
 //@ func (cfg *Config) toJSONConfig
